@@ -100,3 +100,7 @@ impl WakerState {
         assert_eq!(rc, COMPLETED | (1 << 4));
     }
 }
+
+#[cfg(bytecodealliance_wit_bindgen_verif)]
+#[path = "/verif/harness/peek_itw.rs"]
+pub(crate) mod verif_peek;
